@@ -14,7 +14,9 @@ from ..refs import text as R1
 
 ZONES = ["Europe/Berlin", "America/New_York", "Asia/Kolkata", "Australia/Lord_Howe", "America/Sao_Paulo", "Pacific/Apia", "Africa/Cairo",
          "Europe/London", "Asia/Tokyo", "America/Argentina/Buenos_Aires", "Europe/Dublin", "Pacific/Chatham"]
-WORDS = ["meeting", "Lunch", "x", "Café", "日本語", "naïve", "ok", "A B", "1:1", "50%", "a=b", "\U0001F600", "Österreich", "tab\there", "q'uote", "dash-ed", "zero\ufeffwidth", "\ufeffbom-first", "nb\u00a0sp", "ls\u2028ps\u2029", "c1\u0085"]
+WORDS = ["meeting", "Lunch", "x", "Café", "日本語", "naïve", "ok", "A B", "1:1", "50%", "a=b", "\U0001F600", "Österreich", "tab\there", "q'uote", "dash-ed", "zero\ufeffwidth", "\ufeffbom-first", "nb\u00a0sp", "ls\u2028ps\u2029", "c1\u0085",
+         # text that is not in Unicode normal form C: it has to come back code point for code point
+         "de\u0301compose\u0301", "\u212bngstro\u0308m", "\u1112\u1161\u11ab", "\u0958\u2126"]
 CRIT = ["\\", "n", "N", ";", ",", ":", '"', "%", "2", "C", "\n", " ", "a", "%2C", "\\n", "\\;", "\\\\"]
 PARAM_POOL = ["LANGUAGE", "X-A", "ALTREP", "CN", "ROLE", "PARTSTAT", "X-LONG-PARAMETER-NAME", "DIR", "MEMBER", "RSVP", "FMTTYPE", "x-lower"]
 TEXT_PROPS = ["SUMMARY", "DESCRIPTION", "LOCATION", "COMMENT", "CONTACT", "X-VERIF", "X-WR-NOTE", "STATUS", "CLASS", "TRANSP"]
